@@ -4,7 +4,10 @@ import (
 	"errors"
 	"fmt"
 	"slices"
+	"strconv"
 	"sync"
+	"unicode/utf16"
+	"unicode/utf8"
 
 	insaneJSON "github.com/ozontech/insane-json"
 	"github.com/tidwall/gjson"
@@ -90,9 +93,11 @@ func (d *jsonDecoder) cutFieldsBySize(data []byte) []byte {
 		}
 
 		// [v.Index] is value start position including quote (")
+		// [v.Raw] is the raw value including both quotes, it is longer than
+		// [v.Str] if the value contains escape sequences
 		return jsonCutPos{
-			start: v.Index + limit + 1,
-			end:   v.Index + len(v.Str),
+			start: v.Index + 1 + jsonRawPrefixLen(v.Raw[1:len(v.Raw)-1], limit),
+			end:   v.Index + len(v.Raw) - 2,
 		}, true
 	}
 
@@ -130,6 +135,44 @@ func (d *jsonDecoder) cutFieldsBySize(data []byte) []byte {
 	}
 
 	return data
+}
+
+// jsonRawPrefixLen returns the length of the longest prefix of raw (content of
+// a valid JSON string without quotes) that doesn't split an escape sequence
+// and is decoded to at most limit bytes.
+func jsonRawPrefixLen(raw string, limit int) int {
+	i, decoded := 0, 0
+	for i < len(raw) && decoded < limit {
+		if raw[i] != '\\' {
+			i++
+			decoded++
+			continue
+		}
+
+		rawSize, size := 2, 1 // short escape sequence like \n
+		if raw[i+1] == 'u' {
+			rawSize = 6
+			r, _ := strconv.ParseUint(raw[i+2:i+6], 16, 32)
+			size = utf8.RuneLen(rune(r))
+			if size < 0 {
+				// lone surrogate is decoded to the replacement char
+				size = utf8.RuneLen(utf8.RuneError)
+			}
+			if utf16.IsSurrogate(rune(r)) && i+12 <= len(raw) && raw[i+6] == '\\' && raw[i+7] == 'u' {
+				r2, _ := strconv.ParseUint(raw[i+8:i+12], 16, 32)
+				if utf16.DecodeRune(rune(r), rune(r2)) != utf8.RuneError {
+					// surrogate pair
+					rawSize, size = 12, 4
+				}
+			}
+		}
+		if decoded+size > limit {
+			break
+		}
+		i += rawSize
+		decoded += size
+	}
+	return i
 }
 
 func extractJsonParams(params Params) (jsonParams, error) {
